@@ -709,7 +709,37 @@ func sanityCheckValue(fp *os.File, value int64) (isSane bool) {
 	return value < sanityLen
 }
 
-var haveWALWriter = false
+// haveWALWriter tells RequestFlush whether a SyncWAL goroutine is running. It is written by that goroutine
+// and read by every writer, and WALFileType.shutdownPending is written by Shutdown and read by SyncWAL:
+// walFlagsMu orders those accesses.
+var (
+	haveWALWriter = false
+	walFlagsMu    sync.RWMutex
+)
+
+func setHaveWALWriter(v bool) {
+	walFlagsMu.Lock()
+	haveWALWriter = v
+	walFlagsMu.Unlock()
+}
+
+func getHaveWALWriter() bool {
+	walFlagsMu.RLock()
+	defer walFlagsMu.RUnlock()
+	return haveWALWriter
+}
+
+func (wf *WALFileType) setShutdownPending(v bool) {
+	walFlagsMu.Lock()
+	*wf.shutdownPending = v
+	walFlagsMu.Unlock()
+}
+
+func (wf *WALFileType) isShutdownPending() bool {
+	walFlagsMu.RLock()
+	defer walFlagsMu.RUnlock()
+	return *wf.shutdownPending
+}
 
 func (wf *WALFileType) SyncWAL(walRefresh, primaryRefresh time.Duration, walRotateInterval int) {
 	/*
@@ -719,7 +749,7 @@ func (wf *WALFileType) SyncWAL(walRefresh, primaryRefresh time.Duration, walRota
 		numTickerCheckPerWALRefresh = 100
 		writeChannelCapThreshold    = 0.8
 	)
-	haveWALWriter = true
+	setHaveWALWriter(true)
 	tickerWAL := time.NewTicker(walRefresh)
 	tickerPrimary := time.NewTicker(primaryRefresh)
 	tickerCheck := time.NewTicker(walRefresh / numTickerCheckPerWALRefresh)
@@ -727,7 +757,7 @@ func (wf *WALFileType) SyncWAL(walRefresh, primaryRefresh time.Duration, walRota
 
 	chanCap := cap(wf.txnPipe.writeChannel)
 	for {
-		if !*wf.shutdownPending {
+		if !wf.isShutdownPending() {
 			select {
 			case <-tickerWAL.C:
 				if err := wf.FlushToWAL(); err != nil {
@@ -762,7 +792,7 @@ func (wf *WALFileType) SyncWAL(walRefresh, primaryRefresh time.Duration, walRota
 				}
 			}
 		} else {
-			haveWALWriter = false
+			setHaveWALWriter(false)
 			log.Info("Flushing to WAL...")
 			err := wf.FlushToWAL()
 			if err != nil {
@@ -788,7 +818,7 @@ func (wf *WALFileType) SyncWAL(walRefresh, primaryRefresh time.Duration, walRota
 // such guarantee to this caller until it has completed, so returning
 // early on a non-empty flushChannel would acknowledge unflushed writes.)
 func (wf *WALFileType) RequestFlush() {
-	if !haveWALWriter {
+	if !getHaveWALWriter() {
 		if err := wf.FlushToWAL(); err != nil {
 			log.Error("failed to flush WAL", zap.Error(err))
 		}
@@ -800,7 +830,7 @@ func (wf *WALFileType) RequestFlush() {
 }
 
 func (wf *WALFileType) Shutdown() {
-	*wf.shutdownPending = true
+	wf.setShutdownPending(true)
 	wf.walWaitGroup.Wait()
 	wf.finishAndWait()
 }
